@@ -202,8 +202,25 @@ def inputs_rule(ctx, fv):
               "the loaded table is not filled by insert(<u64 k-mer>, <u32 count>)", line_of(ins[0]) if ins else fv.fn["sp"])
     if ins:
         ll = fv.enclosing(ins[0], ("for", "while", "loop"))
-        branchy = [x for x in walk(ll["body"]) if x.get("k") in ("if", "match", "continue", "break", "ret")] if ll else [fv.body]
-        okl = ll is not None and not branchy and fv.in_closure_passed_to(ins[0], lambda c: True) is None
+        fe = fv.in_closure_passed_to(ins[0], lambda c: cname(c).endswith("Iterator::for_each"))
+        if ll is None and fe is not None:
+            # iterator-chain form: lines().map_while(Result::ok).map(parse).for_each(insert) — no filtering adaptor allowed
+            chain = []
+            cur = fe
+            while cur is not None and cur.get("k") == "mcall":
+                chain.append(cname(cur).split("::")[-1])
+                cur = cur["recv"]
+            allowed = {"for_each", "map", "map_while", "lines", "inspect"}
+            filt = [c for c in chain if c not in allowed]
+            clos = [a for c in [fe] + [x for x in walk(fe["recv"]) if x.get("k") == "mcall"] for a in c.get("args", []) if a.get("k") == "closure"]
+            branchy = [x for cl in clos for x in walk(cl) if x.get("k") in ("if", "match", "continue", "break", "ret")]
+            if filt:
+                branchy = branchy or [fe]
+            ll = {"body": fe}
+            okl = not branchy
+        else:
+            branchy = [x for x in walk(ll["body"]) if x.get("k") in ("if", "match", "continue", "break", "ret")] if ll else [fv.body]
+            okl = ll is not None and not branchy and fv.in_closure_passed_to(ins[0], lambda c: True) is None
         ctx.check("C08.P", "compute_coverages:every_line_loaded", okl, "every line of the counts table is inserted unconditionally",
                   "the counts-table loader skips or filters lines (`%s` in the loading loop): a k-mer that occurs in the "
                   "counting input would be treated as absent (bin 0)" % (branchy[0].get("k") if branchy else "?"),
